@@ -24,7 +24,7 @@ PROPS = {
     "C13": {"families": [("c13", 1)], "judge": ["C13"], "quick_s": 20, "thorough_s": 600, "crash_is_violation": True},
     "C14": {"families": [("c14sim", 1)], "judge": ["C14"], "quick_s": 12, "thorough_s": 300, "post": "c14_differential"},
     "C17": {"families": [("c17lib", 1), ("faultfree", 1), ("mixed", 1), ("c10", 1)], "judge": ["C17"], "quick_s": 20, "thorough_s": 600},
-    "C18": {"families": [("mixed", 2), ("faultfree", 2), ("c05ack", 2), ("c02stop", 2), ("c09stop", 2), ("stoprestart", 1), ("ctxcancel", 1), ("ctxfollower", 2)], "crash_is_violation": True, "judge": ["C18"], "quick_s": 20, "thorough_s": 600},
+    "C18": {"families": [("mixed", 2), ("faultfree", 2), ("c05ack", 2), ("c02stop", 2), ("c09stop", 2), ("stoprestart", 1), ("ctxcancel", 1), ("ctxfollower", 2), ("staleterm", 1)], "crash_is_violation": True, "judge": ["C18"], "quick_s": 20, "thorough_s": 600},
     "C19": {"families": [("c08", 2), ("mixed", 1), ("faultfree", 1), ("ctxcancel", 1), ("ctxrestart", 1), ("stoprestart", 1)], "crash_is_violation": True, "judge": ["C19"], "quick_s": 20, "thorough_s": 600},
 }
 
